@@ -21,10 +21,14 @@ def routing(ctx, sample, shape=0):
     C1, C2, C3 = (b"credential-identifier/" * 5 + b"-%d" % k for k in (1, 2, 3))
     users = {"u1": (b"pw-one", C1), "u2": (b"pw-two", C2), "u3": (b"pw-one", C3)}
     # identity shape used consistently by every party of this run: {absent, explicit}^2
-    IDU, IDS = [(None, None), (b"client-id", None), (None, b"server-id"), (b"client-id", b"server-id")][shape % 4]
+    EXPL, IDS = [(False, None), (True, None), (False, b"server-id"), (True, b"server-id")][shape % 4]
+    # an explicit client identity is per user: the server looks it up by credential identifier, the client uses its own
+    idu_of = lambda user: (b"client-of-" + user.encode()) if EXPL else None
+    user_of_cred = {C1: "u1", C2: "u2", C3: "u3"}
+    user_of_client = {"c1": "u1", "c2": "u2", "c3-wrong": "u1", "c4": "u3"}
     records = {}   # name -> (file, pw, cred)
     for name, (pw, cred) in list(users.items()) + [("u1-again", users["u1"])]:
-        f = honest_flow(ctx, pw, cred, None, IDU, IDS, setup=setup, registration_only=True)
+        f = honest_flow(ctx, pw, cred, None, idu_of(user_of_cred[cred]), IDS, setup=setup, registration_only=True)
         records[name] = (f.file, pw, cred)
     records["none"] = (None, None, None)
     clients = {}   # name -> (state, request, pw)
@@ -41,7 +45,7 @@ def routing(ctx, sample, shape=0):
         sessions = must + rnd.sample(rest, sample)
     srv = {}
     for (c, rec, cred) in sessions:
-        r = ctx.call("srv_login_start", ctx.tape(L.Nh + 64 + L.Nsk + 16), setup, records[rec][0], clients[c][1], cred, None, IDU, IDS)
+        r = ctx.call("srv_login_start", ctx.tape(L.Nh + 64 + L.Nsk + 16), setup, records[rec][0], clients[c][1], cred, None, idu_of(user_of_cred[cred]), IDS)
         if ctx.expect(r.ok, "server session starts"):
             srv[(c, rec, cred)] = (r.b(0), r.b(1))
     # every response to every pending client
@@ -50,9 +54,10 @@ def routing(ctx, sample, shape=0):
     for c in sorted(clients):
         st, _, pw = clients[c]
         for sid in sorted(srv, key=repr):
-            r = ctx.call("login_finish", st, pw, srv[sid][1], None, IDU, IDS, "~")
+            r = ctx.call("login_finish", st, pw, srv[sid][1], None, idu_of(user_of_client[c]), IDS, "~")
             (c2, rec, cred) = sid
-            matched = (c2 == c) and records[rec][0] is not None and records[rec][1] == pw and records[rec][2] == cred
+            matched = ((c2 == c) and records[rec][0] is not None and records[rec][1] == pw and records[rec][2] == cred
+                       and (not EXPL or user_of_cred[cred] == user_of_client[c]))
             ctx.expect(r.ok == matched, "client %s on the response of session %s: accepted=%s, matched conversation=%s (%s)"
                        % (c, (c2, rec, cred), r.ok, matched, r.err))
             if r.ok:
@@ -70,13 +75,13 @@ def routing(ctx, sample, shape=0):
     ctx.expect(len(set(keys)) == len(keys), "distinct completed sessions have distinct session keys")
     ctx.expect(len(keys) >= 4, "several sessions completed (non-vacuous)")
     # replay of an old finalization / response into a *new* session of the same user
-    g = honest_flow(ctx, b"pw-one", C1, None, IDU, IDS, setup=setup, registration_only=True)  # unrelated new record
+    g = honest_flow(ctx, b"pw-one", C1, None, idu_of("u1"), IDS, setup=setup, registration_only=True)  # unrelated new record
     for (c, sid), (ke3, key) in list(sorted(fins.items(), key=repr))[:3]:
         r = ctx.call("login_start", ctx.btape(L.Nsk + 64), clients[c][2])
         st2, req2 = r.b(0), r.b(1)
-        r = ctx.call("login_finish", st2, clients[c][2], srv[sid][1], None, IDU, IDS, "~")
+        r = ctx.call("login_finish", st2, clients[c][2], srv[sid][1], None, idu_of(user_of_client[c]), IDS, "~")
         ctx.expect(not r.ok, "a response replayed into a later client session is rejected")
-        r = ctx.call("srv_login_start", ctx.tape(L.Nh + 64 + L.Nsk + 16), setup, records[sid[1]][0], req2, sid[2], None, IDU, IDS)
+        r = ctx.call("srv_login_start", ctx.tape(L.Nh + 64 + L.Nsk + 16), setup, records[sid[1]][0], req2, sid[2], None, idu_of(user_of_cred[sid[2]]), IDS)
         r2 = ctx.call("srv_login_finish", r.b(0), ke3)
         ctx.expect(not r2.ok, "a finalization replayed into a later server session is rejected")
 
